@@ -541,7 +541,23 @@ func c19Run(t *rapid.T, rec *ev.Recorder, mix [c19NumKinds]int, fw c19FaultWeigh
 	if rapid.IntRange(0, 2).Draw(t, "smallPool") == 0 {
 		pool4 = "10.0.0.0/29" // two blocks: exhaustion and borrowing within a few operations
 	}
-	w := c19NewWorld([]v3.IPPool{c19Pool("pool4", pool4, 30), c19Pool("pool6", c19PoolV6, 126)}, nil)
+	// IPReservations inside the pool: single addresses and /31s, often at the head of a block
+	// (the head of a fresh block's free queue), so that auto-assignment has to step over them.
+	var rsvd []v3.IPReservation
+	var rsvdCIDRs []string
+	for i, n := 0, rapid.IntRange(0, 2).Draw(t, "reservations"); i < n; i++ {
+		all := c19PoolAddrs(pool4)
+		a := all[rapid.IntRange(0, len(all)-1).Draw(t, "reservedAddr")]
+		if rapid.Bool().Draw(t, "blockHead") {
+			bl := c19BlockCIDRs(pool4, 30)
+			a = netip.MustParsePrefix(bl[rapid.IntRange(0, len(bl)-1).Draw(t, "reservedBlock")]).Addr().String()
+		}
+		bits := 32 - rapid.IntRange(0, 1).Draw(t, "reservedWider")
+		c := netip.PrefixFrom(netip.MustParseAddr(a), bits).Masked().String()
+		rsvdCIDRs = append(rsvdCIDRs, c)
+		rsvd = append(rsvd, v3.IPReservation{ObjectMeta: metav1.ObjectMeta{Name: fmt.Sprintf("r%d", i)}, Spec: v3.IPReservationSpec{ReservedCIDRs: []string{c}}})
+	}
+	w := c19NewWorld([]v3.IPPool{c19Pool("pool4", pool4, 30), c19Pool("pool6", c19PoolV6, 126)}, rsvd)
 	for _, h := range hosts {
 		w.addNode(h, nil)
 	}
@@ -660,6 +676,9 @@ func c19Run(t *rapid.T, rec *ev.Recorder, mix [c19NumKinds]int, fw c19FaultWeigh
 	if cooldown > 0 {
 		s.classes["cooldown"] = true
 	}
+	if len(rsvdCIDRs) > 0 {
+		s.classes["ip-reservations"] = true
+	}
 	if pool4 != c19PoolV4 {
 		s.classes["small-pool"] = true
 	}
@@ -683,7 +702,7 @@ func c19Run(t *rapid.T, rec *ev.Recorder, mix [c19NumKinds]int, fw c19FaultWeigh
 		for _, o := range s.r.ops {
 			ops = append(ops, o.String())
 		}
-		return map[string]any{"hosts": hosts, "clientHosts": clHost, "strict": strict, "ops": ops, "datastore_calls": len(tr),
+		return map[string]any{"hosts": hosts, "clientHosts": clHost, "strict": strict, "reservations": rsvdCIDRs, "ops": ops, "datastore_calls": len(tr),
 			"conflicts": conflicts, "injected": s.r.injected}
 	}, dedup(cls)...)
 }
